@@ -1025,6 +1025,38 @@ def main(ctx):
     ctx.lattice("typed-parameters", tyunits, one_typed, bounds=dict(parameters=["radius", "depth", "maxmatch"],
                                                                    types=["i1", "u1", "i2", "i8", "u8", "f4", "f8", "0-d array", "Python int", "bool"]))
 
+    # ------------------------------------------------------- nearly equal per-point radii
+    # one radius per first-set point, the radii nearly (but not exactly) equal: every first-set point has one
+    # neighbour at separation s, its own radius is s*(1-g) ("lo", must not match) or s*(1+g) ("hi", must match); ALL
+    # lo/hi vectors of 2..4 points, relative gaps g from 1e-7 to 1e-2, separations 1e-3 .. 30 degrees.  A matcher that
+    # treats radii agreeing to some tolerance as one radius (or uses radius[0] / the last / the largest for all) loses
+    # or invents a pair here.  Pairs inside the 1e-9 degree band (tiny s*g) are left unconstrained by Truth.
+    NE_CENTRES = ((10.0, -20.0), (130.0, 5.0), (250.0, 40.0), (70.0, 62.0))
+    NE_BEAR = (0.0, 200.0, 90.0, 315.0)
+
+    def one_neareq(case, rec):
+        s, g, pattern, depth, mm, variant = case
+        n = len(pattern)
+        p1 = NE_CENTRES[:n]
+        p2 = tuple(destination(p1[i][0], p1[i][1], s, NE_BEAR[i]) for i in range(n))
+        rvec = [s * (1.0 + g) if hi else s * (1.0 - g) for hi in pattern]
+        T = Truth(p1, p2, np.array(rvec, dtype="f8"))
+        k = run_routes(case, rec, T, depth, coords(p1), coords(p2), as_variant(rvec, variant), mm, ROUTES)
+        if k is None:
+            return
+        rec.count("neareq-constrained" if T.n_margin == 0 else "neareq-in-band")
+        rec.ok(case, outcome="neareq/g=%g/%s/%s" % (g, "mixed" if 0 < sum(pattern) < n else "uniform", mm_class(T, mm)),
+               nontrivial=(T.n_margin == 0 and 0 < sum(pattern) < n), calls=k)
+
+    NE_SEPS = [1.0, 1e-3, 30.0]
+    NE_GAPS = [1e-2, 1e-3, 1e-4, 1e-5, 3e-6, 1e-6, 1e-7]
+    NE_PATTERNS = [p for n in ctx.pick((2, 3), (2, 3, 4)) for p in itertools.product((0, 1), repeat=n)]
+    neunits = [(s, g, p, d, mm, v) for s in NE_SEPS for g in NE_GAPS for p in NE_PATTERNS for d in (4, 10)
+               for mm in (0, 1) for v in ("native", "list") if affordable(s * (1.0 + g), d)]
+    ctx.lattice("near-equal-radii", neunits, one_neareq, envstrict=True,
+                bounds=dict(separations=NE_SEPS, relative_gaps=NE_GAPS, points=max(len(p) for p in NE_PATTERNS),
+                            patterns="all lo/hi vectors", depths=[4, 10], maxmatch=[0, 1], containers=["native", "list"]))
+
     # ------------------------------------------------------------ empty point sets
     # an empty first set, an empty matcher, both: no pair, count 0, the pair file created (replacing a stale one),
     # readable and empty, every file descriptor closed again - through every route, depth and limit
